@@ -5,6 +5,7 @@ import logging
 import math
 import pickle
 import struct
+import threading
 from collections import deque
 from contextlib import suppress
 from enum import IntEnum
@@ -57,6 +58,9 @@ def _make_name(name: str, size: int, explicit_name: bool = False, prefix: str = 
     if not explicit_name:
         return f"{prefix}{name}_{next(var_counter)}_{size}"
     return name
+
+
+_hash_cache_lock = threading.Lock()
 
 
 def _d(h, cls, state):
@@ -228,7 +232,14 @@ class Base:
                 relocatable_annotations=relocatable_annotations,
             )
             self._hash = hash_
-            cls._hash_cache[hash_] = self
+            # two threads can miss the table for the same expression at the same time: the object filed first is the
+            # one both get
+            with _hash_cache_lock:
+                first = cls._hash_cache.get(hash_, None)
+                if first is None:
+                    cls._hash_cache[hash_] = self
+                else:
+                    self = first
         # else:
         #     if not self._check_args_same(a_args) or self.op != op or self.annotations != annotations:
         #         raise Exception("CRAP -- hash collision")
@@ -285,7 +296,12 @@ class Base:
             )
 
             result._hash = h
-            cache[h] = result
+            with _hash_cache_lock:
+                first = cast("T | None", cache.get(h, None))
+                if first is None:
+                    cache[h] = result
+                else:
+                    result = first
 
             return result
 
